@@ -28,6 +28,7 @@ struct ThreadCtx {
   int prog = -1; int vt = -1;
   int hslots[8]; int backing = -1; int deflt = -1;     // model heap indexes
   bool started = false, done = false, initialized = false;
+  bool alloc_ok = false;     // some allocation of this thread succeeded: its thread-local heap exists (it may not under injected mmap refusals)
   int cur_op = -1;
   int subproc = 0;
   int expect_err_mask = 0;   // errors the current operation may legitimately report (bit per class)
@@ -41,6 +42,7 @@ struct Harness {
   const Plan* plan = nullptr;
   std::vector<Block*> slots;
   std::map<uintptr_t, Block*> live;
+  std::vector<Block*> limbo;          // blocks taken out of `live` by an operation that is still in progress (realloc): thread exit must still see them
   std::vector<MHeap> heaps;
   std::vector<MArena> arenas;
   std::vector<mi_subproc_id_t> subprocs;
@@ -56,6 +58,8 @@ struct Harness {
   uint64_t pc_max_pages = 0, pc_max_accessible = 0, pc_samples = 0;
   struct Watch { uintptr_t p; size_t usable; size_t log_index; uint64_t t_ms; bool dropped; uint64_t rounds_at_free; };
   std::vector<Watch> watch; std::vector<uintptr_t> sentinel_bases;
+  struct Zombie { uint8_t* p; size_t usable; int heap; int prog; bool reissued; };
+  std::vector<Zombie> zombies;           // blocks freed once by a C17 'armed' double free; the second free comes later unless the address was re-issued
   bool forced_abandon_possible = false;   // target_segments_per_thread > 0 or mi_collect_reduce used: pages may leave their heap
 };
 extern Harness H;
